@@ -4,7 +4,7 @@ At every query point of a seeded history two deep copies of the bandit (same mod
 position, generator aliasing preserved by deepcopy) are asked predict(X) and predict_expectations(X); an
 online checker compares row by row.  Ties are provoked (binary / few-valued rewards, unobserved arms).
 
-As built: The live bandit answers queries too (whatever a real query leaves behind is part of the state of the next twin check); a predict -> warm_start -> predict scenario in which the arg-max changes; near-tie rewards (means differing in the 10th digit).
+As built: The live bandit answers queries too (whatever a real query leaves behind is part of the state of the next twin check); a predict -> warm_start -> predict scenario in which the arg-max changes; near-tie rewards (means differing in the 10th digit); one query of 131073-262144 rows in a quarter of the cases without neighbourhood policy.
 """
 from mon import env  # noqa: F401
 import copy
@@ -21,7 +21,8 @@ RULE = ("47 policy combinations (TreeBandit+EpsilonGreedy(eps>0) excluded by the
         "warm start and partial_fit x query batches of 1-8 rows incl. far-away rows (empty neighbourhoods); non-trivial = a "
         "row with an exact tie for the maximum or an empty neighbourhood; distinct = (combo, row feature, history skeleton)")
 BUDGET = {"quick": {"cases": 48 * 8, "shards": 8}, "thorough": {"cases": 48 * 300, "shards": 16, "wall_s": 2400}}
-MIN = {"quick": {"evaluations": 1500, "nontrivial": 60}, "thorough": {"evaluations": 50000, "nontrivial": 1500}}
+MIN = {"quick": {"evaluations": 1500, "nontrivial": 60, "counters": {"huge_queries": 10}},
+       "thorough": {"evaluations": 50000, "nontrivial": 1500, "counters": {"huge_queries": 300}}}
 ASSUMPTIONS = ["NaN rows are judged only as the property states: all expectations NaN and the arm inside the support of the "
                "configured empty-neighbourhood distribution"]
 
@@ -67,6 +68,13 @@ def run_case(rs, ctx):
         q1[0]["live"] = True
         ws = gen.gen_warm(rs, cfg["arms"], q=1.0)
         ops = [f0] + q1 + [ws] + gen.gen_ops(rs, cfg, sh2, 2, ["predict"]) + [o for o in ops[1:] if o["op"] in ("partial_fit", "predict", "warm_start")]
+    if p == "none" and (ctx.index // 48) % 4 == 1:
+        # one very long query (131073-262144 rows: beyond any plausible internal block size): the arm of every row must
+        # still be the first maximum of that row's expectations
+        last_fit = [o for o in ops if o["op"] == "fit"][-1]
+        nfq = len(last_fit["X"][0]) if gen.is_ctx(cfg) else 2
+        ops.append({"op": "predict", "X": gen.gen_contexts(rs, 131073 + int(rs.integers(0, 131072)), nfq), "huge": True})
+        ctx.count("huge_queries")
     m = gen.build(cfg)
     skeleton = "".join(o["op"][0] for o in ops)
     probs = cfg["np"].get("probs")
@@ -80,7 +88,9 @@ def run_case(rs, ctx):
                 return
             continue
         X = op.get("X")
-        if X is not None and gen.is_ctx(cfg) and rs.integers(3) == 0:
+        if op.get("huge"):
+            wit["ops"][-1] = {"op": "predict", "X": "<%d rows x %d features, regenerated from the case index>" % (len(X), len(X[0]))}
+        if X is not None and gen.is_ctx(cfg) and rs.integers(3) == 0 and not op.get("huge"):
             X = [list(x) for x in X]
             X[int(rs.integers(len(X)))] = [50.0 + float(v) for v in X[0]]  # far away: empty radius neighbourhood
             wit["ops"][-1] = dict(op, X=X)
